@@ -45,6 +45,7 @@ struct Stats {
     alloc_equal: u64,
     alloc_checked: u64,
     inv_checked: u64,
+    reader_checks: u64,
 }
 
 fn short(s: &Value) -> Value {
@@ -173,6 +174,7 @@ fn run_one(steps: &[Value], cfg: &Cfg, st: &mut Stats, bidx: usize) {
     };
     let mut db = Some(open(scratch.path()).expect("open"));
     let mut held: HashMap<String, Region> = HashMap::new();
+    let mut reader: Option<rawdb::Reader> = None;
     let exact = cfg.scale * cfg.p == PAGE_SIZE;
     let s = cfg.scale;
     let mut prev: Option<BTreeMap<String, Vec<i64>>> = Some(BTreeMap::new());
@@ -235,6 +237,15 @@ fn run_one(steps: &[Value], cfg: &Cfg, st: &mut Stats, bidx: usize) {
                     }
                     Ok(())
                 }
+                "reader_new" => {
+                    reader = Some(d.get_region(&name(0)).expect("region").create_reader());
+                    Ok(())
+                }
+                "reader_read" => Ok(()),
+                "reader_drop" => {
+                    reader = None;
+                    Ok(())
+                }
                 "flush" => d.flush().map(|_| ()),
                 "rflush" => d.get_region(&name(0)).expect("region").flush().map(|_| ()),
                 "compact" => d.compact(),
@@ -253,6 +264,7 @@ fn run_one(steps: &[Value], cfg: &Cfg, st: &mut Stats, bidx: usize) {
         };
         if op == "reopen" && class == "ok" {
             held.clear();
+            reader = None;
             drop(db.take());
             match catch_unwind(AssertUnwindSafe(|| open(scratch.path()))) {
                 Ok(Ok(ndb)) => db = Some(ndb),
@@ -288,10 +300,25 @@ fn run_one(steps: &[Value], cfg: &Cfg, st: &mut Stats, bidx: usize) {
             "err" => class == "err",
             _ => true,
         };
+        // C10: bytes seen through a live reader must be bytes its own region held since the reader was created
+        let mut reader_bad: Option<String> = None;
+        let mut reader_cells: Vec<i64> = vec![];
+        if let Some(rd) = &reader {
+            st.reader_checks += 1;
+            reader_cells = rd.read_all().chunks(s).map(decode_cell).collect();
+            let seen: Vec<Vec<i64>> = step["rseen"].as_array().map(|a| a.iter().map(|x| x.as_array().map(|y| y.iter().map(|z| z.as_i64().unwrap()).collect()).unwrap_or_default()).collect()).unwrap_or_default();
+            for (k, c) in reader_cells.iter().enumerate() {
+                if k < seen.len() && !seen[k].contains(c) {
+                    reader_bad = Some(format!("reader byte block {k} holds value {c}, its region only ever held {:?} there since the reader was created", seen[k]));
+                    break;
+                }
+            }
+        }
+        let model_rdr: Vec<i64> = step["rdr"].as_array().map(|a| a.iter().map(|x| x.as_i64().unwrap()).collect()).unwrap_or_default();
         let ra = real_alloc(d);
         st.inv_checked += 1;
         let inv = extent_invariants(&ra, d);
-        let mut prop_ok = class_ok && bad.is_none() && obs == exp && inv.is_ok();
+        let mut prop_ok = class_ok && bad.is_none() && obs == exp && inv.is_ok() && reader_bad.is_none();
         if class == "err" && prev.as_ref() != Some(&obs) {
             prop_ok = false; // C13: a refused call changes nothing
         }
@@ -311,7 +338,7 @@ fn run_one(steps: &[Value], cfg: &Cfg, st: &mut Stats, bidx: usize) {
                 st.alloc_equal += 1;
             }
         }
-        let impl_ok = class == model_res && obs == imp && alloc_same;
+        let impl_ok = class == model_res && obs == imp && alloc_same && (reader.is_none() || !exact || reader_cells == model_rdr);
         if prop_ok {
             if !impl_ok {
                 st.cut_permitted += 1;
@@ -321,7 +348,7 @@ fn run_one(steps: &[Value], cfg: &Cfg, st: &mut Stats, bidx: usize) {
             note_known(st, &dev, steps, si);
         } else {
             st.violations.push(json!({"behaviour": bidx, "step": si, "op": op, "args": a,
-                "what": format!("outcome {class} {errtxt}; {}{}", inv.err().map(|e| format!("extent invariant: {e}; ")).unwrap_or_default(), bad.unwrap_or_default()),
+                "what": format!("outcome {class} {errtxt}; {}{}{}", inv.err().map(|e| format!("extent invariant: {e}; ")).unwrap_or_default(), bad.unwrap_or_default(), reader_bad.unwrap_or_default()),
                 "must": must, "expected": step["exp"], "model_impl": step["impl"], "model_res": model_res, "dev": dev,
                 "observed": json!(obs), "model_alloc": step["alloc"], "model_pend": step["pend"],
                 "real_alloc": json!({"regs": ra.regs, "holes": ra.holes, "pend": ra.pend, "reserved": ra.reserved, "file_len": ra.file_len}),
@@ -336,6 +363,7 @@ fn run_one(steps: &[Value], cfg: &Cfg, st: &mut Stats, bidx: usize) {
         st.nontrivial.insert(fnv(&key));
     }
     held.clear();
+    drop(reader);
     drop(db);
 }
 
@@ -363,7 +391,7 @@ pub fn main(args: &[String]) -> i32 {
         "scale": scale, "p": p, "behaviours": st.behaviours, "steps": st.steps, "distinct_nontrivial": st.nontrivial.len(),
         "ops": st.ops, "paths": st.paths, "cut_permitted": st.cut_permitted,
         "known": st.known.iter().map(|(d, (c, h))| json!({"dev": d, "count": c, "history": h})).collect::<Vec<_>>(),
-        "alloc_checked": st.alloc_checked, "alloc_equal": st.alloc_equal, "inv_checked": st.inv_checked,
+        "alloc_checked": st.alloc_checked, "alloc_equal": st.alloc_equal, "inv_checked": st.inv_checked, "reader_checks": st.reader_checks,
         "violations": st.violations,
     });
     writeln!(std::io::stdout(), "{}", out).unwrap();
